@@ -7,12 +7,17 @@
 //! the simulated process), both with a fault script ("the n-th call of the scenario fails with an
 //! error and has no effect").  Scenarios come from TLC (`--scenarios`) and from a seeded random
 //! generator.  After every operation the projected registry, the projected simulated OS and the
-//! result of reloading the saved registry are logged.
+//! result of reloading the saved registry are logged.  Between operations the ENVIRONMENT may kill the
+//! process of a service or respawn it with a new pid (steps "Kill" / "Respawn": no manager code runs);
+//! an Add may carry two port options of different kinds ("port"/"kind" and "port2"/"kind2").
 //!
 //! `drv_svc args ...`  for every option combination written by TLC runs the REAL install path
 //! (`add_node`, capturing the `ServiceInstallCtx`) and the REAL upgrade path
-//! (`ServiceManager::upgrade` -> `NodeService::build_upgrade_install_context`), then runs the
-//! `antnode` binary built from the same tree (hook H7: option dump) on both argument lists.
+//! (`ServiceManager::upgrade` -> `NodeService::build_upgrade_install_context`, with the options of
+//! `antctl upgrade` as transcribed from cmd/node.rs in `antctl_upgrade_options`), every command on the
+//! registry as reloaded from the saved file, optionally as second service of a `--count 2` batch, with
+//! `--auto-set-nat-flags`, and after an `antctl start`; then runs the `antnode` binary built from the
+//! same tree (hook H7: option dump) on both argument lists.
 use ant_bootstrap::PeersArgs;
 use ant_evm::{EvmNetwork, RewardsAddress};
 use ant_logging::LogFormat;
